@@ -1,6 +1,8 @@
-//! Seeded case generators (inputs only - expectations come from the TLA+ specification).
+//! Seeded case generators (inputs only - every expectation comes from the TLA+ specification).
 
-use serde_json::Value;
+use crate::enc::*;
+use nodejs_semver::{Identifier, VerifSide, Version, MAX_SAFE_INTEGER};
+use serde_json::{json, Value};
 use std::io::Write;
 
 pub struct Rng(pub u64);
@@ -14,7 +16,11 @@ impl Rng {
         z ^ (z >> 31)
     }
     pub fn below(&mut self, n: u64) -> u64 {
-        if n == 0 { 0 } else { self.next() % n }
+        if n == 0 {
+            0
+        } else {
+            self.next() % n
+        }
     }
     pub fn chance(&mut self, num: u64, den: u64) -> bool {
         self.below(den) < num
@@ -24,7 +30,135 @@ impl Rng {
     }
 }
 
-pub fn generate<W: Write>(_scenario: &str, _seed: u64, _n: usize, _out: &mut W) -> usize {
-    let _ = Value::Null;
-    0
+// ---------------------------------------------------------------- building blocks
+pub fn component(r: &mut Rng) -> u64 {
+    match r.below(10) {
+        0..=3 => r.below(3),
+        4 => 9 + r.below(3),
+        5 => 99 + r.below(3),
+        6 => MAX_SAFE_INTEGER - r.below(2),
+        7 => r.below(1000),
+        8 => r.below(MAX_SAFE_INTEGER),
+        _ => r.below(5),
+    }
+}
+
+const ALNUM: &[&str] = &[
+    "a", "b", "A", "B", "alpha", "beta", "rc", "a-", "-", "--", "a0", "0a", "a-b", "Z", "z", "x", "pre", "1a", "-1", "a1",
+];
+
+pub fn identifier(r: &mut Rng) -> Identifier {
+    match r.below(10) {
+        0..=2 => Identifier::Numeric(r.below(3)),
+        3 => Identifier::Numeric(r.below(20)),
+        4 => Identifier::Numeric(match r.below(4) {
+            0 => u64::MAX,
+            1 => u64::MAX - 1,
+            2 => MAX_SAFE_INTEGER + 1,
+            _ => r.next(),
+        }),
+        _ => Identifier::AlphaNumeric(r.pick(ALNUM).to_string()),
+    }
+}
+
+pub fn idlist(r: &mut Rng, maxlen: u64) -> Vec<Identifier> {
+    let n = 1 + r.below(maxlen);
+    (0..n).map(|_| identifier(r)).collect()
+}
+
+pub fn version(r: &mut Rng) -> Version {
+    let mut v = Version::from((component(r), component(r), component(r)));
+    if r.chance(1, 2) {
+        v.pre_release = idlist(r, 3);
+    }
+    if r.chance(1, 5) {
+        v.build = idlist(r, 2);
+    }
+    v
+}
+
+/// A pool of versions around one tuple, rich in ties, immediate successors and `-0` bounds.
+pub fn tie_pool(r: &mut Rng) -> Vec<Version> {
+    let (ma, mi, pa) = (component(r), component(r), component(r).min(MAX_SAFE_INTEGER - 2));
+    let tag = idlist(r, 2);
+    let mut tag0 = tag.clone();
+    tag0.push(Identifier::Numeric(0));
+    let mk = |m: u64, n: u64, p: u64, pre: Vec<Identifier>| Version { major: m, minor: n, patch: p, pre_release: pre, build: vec![] };
+    let mut pool = vec![
+        mk(ma, mi, pa, tag.clone()),
+        mk(ma, mi, pa, tag0),
+        mk(ma, mi, pa, vec![]),
+        mk(ma, mi, pa + 1, vec![Identifier::Numeric(0)]),
+        mk(ma, mi, pa + 1, vec![]),
+        mk(ma, mi, pa, vec![Identifier::Numeric(0)]),
+    ];
+    if ma < MAX_SAFE_INTEGER {
+        pool.push(mk(ma + 1, 0, 0, vec![Identifier::Numeric(0)]));
+        pool.push(mk(ma + 1, 0, 0, vec![]));
+    }
+    if r.chance(1, 2) {
+        pool.push(mk(ma, mi, pa, idlist(r, 2)));
+    }
+    if r.chance(1, 3) {
+        pool.push(mk(0, 0, 0, vec![Identifier::Numeric(0)]));
+        pool.push(mk(0, 0, 0, vec![]));
+    }
+    if r.chance(1, 3) {
+        pool.push(version(r));
+    }
+    pool
+}
+
+fn bound(r: &mut Rng, v: &Version) -> VerifSide {
+    let mut v = v.clone();
+    if r.chance(1, 12) {
+        v.build = vec![Identifier::AlphaNumeric("b".into())];
+    }
+    Some((r.chance(1, 2), v))
+}
+
+pub fn interval(r: &mut Rng, pool: &[Version]) -> (VerifSide, VerifSide) {
+    let a = r.pick(pool).clone();
+    let b = r.pick(pool).clone();
+    // ordering the two picks only makes valid intervals more frequent; it decides nothing
+    let (lo, up) = if a <= b { (a, b) } else { (b, a) };
+    match r.below(10) {
+        0 => (None, bound(r, &up)),
+        1 => (bound(r, &lo), None),
+        2 => (Some((true, lo.clone())), Some((true, lo))),
+        3 if r.chance(1, 4) => (None, None),
+        _ => (bound(r, &lo), bound(r, &up)),
+    }
+}
+
+pub fn range_struct(r: &mut Rng, pool: &[Version], maxalts: u64) -> Value {
+    let n = 1 + r.below(maxalts);
+    let ivs: Vec<(VerifSide, VerifSide)> = (0..n).map(|_| interval(r, pool)).collect();
+    bounds_to_json(&ivs)
+}
+
+// ---------------------------------------------------------------- scenarios
+fn ranges<W: Write>(r: &mut Rng, n: usize, out: &mut W) -> usize {
+    for _ in 0..n {
+        let pool = tie_pool(r);
+        let a = range_struct(r, &pool, 3);
+        let b = if r.chance(1, 3) { range_struct(r, &pool, 1) } else { range_struct(r, &pool, 3) };
+        writeln!(out, "{}", json!({"op":"pair","A":a,"B":b})).unwrap();
+    }
+    n
+}
+
+pub fn generate<W: Write>(scenario: &str, seed: u64, n: usize, out: &mut W) -> usize {
+    let mut h: u64 = 1469598103934665603;
+    for b in scenario.bytes() {
+        h = (h ^ b as u64).wrapping_mul(1099511628211);
+    }
+    let mut r = Rng(seed ^ h);
+    match scenario {
+        "ranges" => ranges(&mut r, n, out),
+        _ => {
+            eprintln!("unknown scenario {}", scenario);
+            std::process::exit(2);
+        }
+    }
 }
